@@ -38,6 +38,7 @@ fn drivers() -> Vec<Box<dyn Driver>> {
         Box::new(props::c15::C15),
         Box::new(props::c16::C16),
         Box::new(props::c19::C19),
+        Box::new(props::c20::C20),
     ]
 }
 
